@@ -281,6 +281,9 @@ Rewrites(ns) ==
   \cup {RW("fragment-spread-type-existence", "fragment-definition", SetAt(ns, f, [ns[f] EXCEPT !.cond = "Nope"])) : f \in Frags(ns)}
   \cup {RW("fragments-on-composite-types", SiteKind(ns, i), SetAt(ns, i, [ns[i] EXCEPT !.cond = c])) : i \in {j \in Ids(ns) : ns[j].k = "I"}, c \in {"String", "E"}}
   \cup {RW("fragments-on-composite-types", "fragment-definition", SetAt(ns, f, [ns[f] EXCEPT !.cond = c])) : f \in Frags(ns), c \in {"Int", "E"}}
+  \* a type condition naming an INPUT object type, over a selection of meta fields only (nothing else could object to it)
+  \cup {RW("fragments-on-composite-types", "inline-fragment-on-an-input-type", AddChildWithLeaf(ns, i, Mk("I", 0, "", "", "In", <<>>, <<>>, "", Named(FDefOf(ns[i]).type)), NewF("__typename", "In"))) :
+           i \in CompFields(ns)}
   \cup {RW("fragment-must-be-used", "second-fragment", AppendNodes(ns, <<Mk("FRAG", 0, "Unused", "", c, <<>>, <<>>, "", ""), [NewF("__typename", c) EXCEPT !.parent = 1]>>)) : c \in {"T", "Query"}}
   \cup {RW("fragment-spread-target-defined", SiteKind(ns, i), AddChildLast(ns, ns[i].parent, Mk("S", 0, "Undefined", "", "", <<>>, <<>>, "", ns[i].ptype))) : i \in SelNodes(ns)}
   \cup {RW("fragment-spreads-must-not-form-cycles", "fragment-definition", AddChildLast(ns, f, Mk("S", 0, ns[f].name, "", "", <<>>, <<>>, "", ns[f].cond))) : f \in Frags(ns)}
